@@ -96,6 +96,33 @@ def gen_par(r, var="x", pvar=None, p_dep=0.0, tri=False, origin=None, scale=1.0)
     return node
 
 
+def gen_flip(r, var="x", pvar="t", tri=True):
+    """A triangle/parallelogram whose vertex ORIENTATION depends on the parameter: corner_2 is
+    mirrored through the origin corner as t passes 0.5 (rows are drawn from t <= 0.3 or t >= 0.7)."""
+    for _ in range(200):
+        d1, d2, sgn = _two_dirs(r, tri)
+        if math.hypot(*d2) < 1.3:
+            continue
+        if tri:
+            # the mirrored triangle (d1, -d2) must satisfy the angle envelope as well
+            ok = True
+            for f in (1.0, 0.4, -0.4, -1.0):
+                e2 = (f * d2[0], f * d2[1])
+                e = (e2[0] - d1[0], e2[1] - d1[1])
+                l1, l2, le = math.hypot(*d1), math.hypot(*e2), math.hypot(*e)
+                al = math.acos(max(-1, min(1, (d1[0] * e2[0] + d1[1] * e2[1]) / (l1 * l2))))
+                a1 = math.acos(max(-1, min(1, (-d1[0] * e[0] - d1[1] * e[1]) / (l1 * le))))
+                if min(al, a1, math.pi - al - a1) < math.radians(25):
+                    ok = False
+            if not ok:
+                continue
+        o = (r.uniform(-2, 2), r.uniform(-2, 2))
+        return {"k": "tri" if tri else "par", "var": var, "o": [q(o[0]), q(o[1])],
+                "c1": [q(o[0] + d1[0]), q(o[1] + d1[1])],
+                "c2": [["aff", q(o[0] - d2[0]), q(2 * d2[0], 1024.0), pvar], ["aff", q(o[1] - d2[1]), q(2 * d2[1], 1024.0), pvar]]}
+    raise RuntimeError("no flip shape")
+
+
 _POLYS = [
     [[0, 0], [2, 0], [2, 1], [1, 1], [1, 2], [0, 2]],                 # L
     [[0, 0], [3, 0], [3, 2], [2, 2], [2, 1], [1, 1], [1, 2], [0, 2]],  # U
